@@ -1,11 +1,12 @@
 (* C16 -- anything read can be saved again, and a second generation equals the first.  Statements only.
    Proved for the two codecs whose reader produces forms the writer has to accept again -- metadata values (numpy
-   scalars inside sequences) and Array calibrations (re-expanded dim vectors) -- and for trees (what read returned is
-   writable and readable again and reads back as the very same tree: canon is idempotent).  PARTIAL: PointList /
+   scalars inside sequences) and Array calibrations (re-expanded dim vectors) -- and for trees (what read returned -- the whole
+   tree or any of the three selections of an inner node -- is writable and readable again and reads back as the very
+   same tree: canon is idempotent).  PARTIAL: PointList /
    PointListArray contents and legacy imports are decided on the real code by the oracle (three generations). *)
 From Coq Require Import ZArith List PrimFloat.
 From Emd Require Import Base.Prelude Model.Md Model.Arr Proofs.P03 Proofs.P14 Proofs.P02 Proofs.P15 Proofs.P16.
-From Emd Require Model.H5 Model.Emd Model.Reader Proofs.PTree Proofs.PRead Proofs.PGen.
+From Emd Require Model.H5 Model.Emd Model.Reader Proofs.PTree Proofs.PRead Proofs.PGen Proofs.PSel.
 
 Theorem C16_metadata_second_generation_equals_first :
   forall v, doc v = true ->
@@ -42,7 +43,7 @@ Proof. split; [reflexivity|]. split; [reflexivity|]. eexists. reflexivity. Qed.
 
 (* ---------- trees (model of C01): save, read, save what was read under any session configuration, read again *)
 Module Trees.
-Import Model.H5 Model.Emd Model.Reader Proofs.PTree Proofs.PRead Proofs.PGen.
+Import Model.H5 Model.Emd Model.Reader Proofs.PTree Proofs.PRead Proofs.PGen Proofs.PSel.
 Theorem C16_tree_second_generation_equals_first :
   forall c c' root,
     rcls root = CRoot -> ok_tree root -> rd_tree root -> rname root <> "" -> no_slash (rname root) = true ->
@@ -58,4 +59,19 @@ Theorem C16_tree_read_result_is_a_fixed_point :
   forall t, canon (canon t) = canon t /\ (ok_tree t -> ok_tree (canon t)) /\ (rd_tree t -> rd_tree (canon t)).
 Proof. intros t. split; [apply canon_idem|]. split; [apply ok_tree_canon|apply rd_tree_canon]. Qed.
 Print Assumptions C16_tree_read_result_is_a_fixed_point.
+
+(* every read selection: read(path, emdpath = 'root/p', tree = tr) of a node k of a saved tree returns canon (sel_tree root k tr)
+   -- sel_tree = the root holding the node alone / the node with its branch / the branch below the node, i.e. the tree a
+   partial save (C07) writes -- and saving that result and reading it again returns it unchanged *)
+Theorem C16_partial_read_second_generation_equals_first :
+  forall c c' root p k tr,
+    rcls root = CRoot -> ok_tree root -> rd_tree root -> p <> [] -> rwalk root p = Some k ->
+    Forall (fun s => s <> "" /\ no_slash s = true) (rname root :: p) ->
+    let t1 := canon (sel_tree root k tr) in
+    exists ret f2,
+      read (H5 (whole_file c root)) (Some (join_slash (rname root :: p))) tr = Ok (RTree t1 ret) /\
+      fresh_file c' t1 [] (Some true) = Ok f2 /\
+      read (H5 f2) None (Some true) = Ok (RTree t1 (ret_of t1)) /\ read (H5 f2) None None = Ok (RTree t1 RetRoot).
+Proof. exact partial_read_second_generation. Qed.
+Print Assumptions C16_partial_read_second_generation_equals_first.
 End Trees.
